@@ -1,7 +1,7 @@
 use crate::http1_codec::Http1Codec;
 use crate::http_codec::HttpCodec;
 use crate::tls_demultiplexer::Protocol;
-use crate::{core, http_codec, log_id, log_utils};
+use crate::{core, http_codec, log_id, log_utils, net_utils};
 use bytes::Bytes;
 use prometheus::Encoder;
 use std::io;
@@ -212,7 +212,12 @@ async fn handle_request(
     let timeout = context.settings.metrics.as_ref().unwrap().request_timeout;
     let stream = match tokio::time::timeout(timeout, codec.listen()).await {
         Ok(Ok(Some(x))) => {
-            log_id!(trace, log_id, "Got request: {:?}", x.request().request());
+            log_id!(
+                trace,
+                log_id,
+                "Got request: {:?}",
+                net_utils::scrub_request(x.request().request())
+            );
             x
         }
         Ok(Ok(None)) => {
@@ -239,7 +244,7 @@ async fn handle_request(
                 debug,
                 log_id,
                 "Got unexpected request while processing previous: {:?}",
-                x.request().request(),
+                net_utils::scrub_request(x.request().request()),
             ),
             Ok(None) => (),
             Err(e) => log_id!(debug, log_id, "IO error during processing: {}", e),
